@@ -35,7 +35,7 @@ pub fn plan_for(prop: &str, tier: Tier) -> Option<PropPlan> {
     match prop {
         "C01" => Some(PropPlan {
             rule: "case = (backend flavour, len, spare capacity class, one push/insert/pop/remove/swap_remove/clear/get/iter instance with index 0..=len+1, value source, sink, erased/typed path) enumerated exhaustively, plus proptest histories over three vectors; non-trivial = the operation changes the sequence, uses a boundary or out-of-range index, or moves a value between vectors; distinct = distinct (configuration, pick sequence)",
-            bound: format!("exhaustive one-step for len<={} on all layout/backend/constraint configurations{}; threshold sweep (shifted byte counts 120..136 around the 128-byte copy switch, lengths around 16/32); proptest {} histories x <= {} ops per configuration", l, if q { "" } else { ", exhaustive two-step for len<=3 on the core configurations" }, hc, ho),
+            bound: format!("exhaustive one-step for len<={} on all layout/backend/constraint configurations{}; threshold sweep (shifted byte counts 120..136 around the 128-byte copy switch, lengths around 16/32); proptest {} histories x <= {} ops per configuration", l, if q { "" } else { ", exhaustive two-step (mutating operations) for len<=2 on the core configurations" }, hc, ho),
             plans: {
                 let mut v = vec![
                     Plan { shape: Shape::Step, groups: G_LAYOUT | G_BACKEND | G_CONSTRAINT, random: None, spec: spec("C01", OPS_C01, MON_MODEL, l) },
@@ -43,7 +43,8 @@ pub fn plan_for(prop: &str, tier: Tier) -> Option<PropPlan> {
                     Plan { shape: Shape::Threshold, groups: G_LAYOUT | G_BACKEND, random: None, spec: spec("C01", OPS_C01, MON_MODEL, l) },
                 ];
                 if !q {
-                    v.push(Plan { shape: Shape::Step2, groups: G_CORE, random: None, spec: spec("C01", OPS_C01, MON_MODEL, 3) });
+                    // two mutating operations in a row (reads after a mutation are covered by the post-state comparison)
+                    v.push(Plan { shape: Shape::Step2, groups: G_CORE, random: None, spec: spec("C01", ops(&[OP_PUSH, OP_INSERT, OP_POP, OP_REMOVE, OP_SWAP_REMOVE, OP_CLEAR]), MON_MODEL, 2) });
                 }
                 v
             },
